@@ -201,6 +201,7 @@ fn op_name(op: &EOp) -> &'static str {
         EOp::ZeroizedCopyEncoded(_) => "zeroized_copy_encoded",
         EOp::OperatorForm(..) => "operator_form",
         EOp::GadgetValue(..) => "gadget_value",
+        EOp::SumOfAffine(..) => "sum_of_affine",
     }
 }
 
@@ -234,6 +235,87 @@ fn aff(a: AffinePoint) -> Built {
         rng: None,
         none: false,
     }
+}
+
+/// The element the operation *denotes*, computed by the reference model from the operands' recorded points
+/// (operation by operation, like a sequential specification of the application's history). None: the
+/// operation has no arithmetic meaning to compare with (sources, samplers) or an operand has no record.
+/// What the library arrived at must be this element (either representative); otherwise what it then
+/// encodes is not "the specification's encoding of the element".
+fn model_of(op: &EOp, pool: &[PoolEntry]) -> Option<Pt> {
+    let fr = simcore::field::fr();
+    let get = |i: usize| -> Option<Pt> {
+        if pool.is_empty() {
+            Some(rd::generator().clone())
+        } else {
+            pool[i % pool.len()].tag.clone()
+        }
+    };
+    let scalar = |h: &str| -> BigUint { Fld::int_le(&unhex(h).unwrap_or_default()) % &fr.p };
+    let limbs_int = |l: &Vec<u64>| -> BigUint {
+        let mut m = BigUint::from(0u32);
+        for x in l.iter().rev() {
+            m = (m << 64usize) + BigUint::from(*x);
+        }
+        m
+    };
+    Some(match op {
+        EOp::Add(i, j) | EOp::AddRef(i, j) | EOp::AddAffine(i, j) => rd::add(&get(*i)?, &get(*j)?),
+        EOp::Sub(i, j) => rd::add(&get(*i)?, &rd::neg(&get(*j)?)),
+        EOp::Double(i) => {
+            let p = get(*i)?;
+            rd::add(&p, &p)
+        }
+        EOp::Neg(i) | EOp::AffineNeg(i) => rd::neg(&get(*i)?),
+        EOp::SelfSub(i) | EOp::PlusMinusOneTimes(i) => {
+            get(*i)?;
+            rd::identity()
+        }
+        EOp::MulU64(i, k) => rd::scalar_mul(&BigUint::from(*k), &get(*i)?),
+        EOp::MulFr(i, h) | EOp::AffineMulFr(i, h) => rd::scalar_mul(&scalar(h), &get(*i)?),
+        EOp::NegOfMul(i, h) | EOp::MulOfNeg(i, h) => rd::neg(&rd::scalar_mul(&scalar(h), &get(*i)?)),
+        EOp::MulBigint(i, l) | EOp::AffineMulBigint(i, l) => rd::scalar_mul(&(limbs_int(l) % &fr.p), &get(*i)?),
+        EOp::SumOf(is) | EOp::SumOfAffine(is, _) => {
+            let mut acc = rd::identity();
+            if is.is_empty() {
+                acc = rd::generator().clone();
+            }
+            for i in is {
+                acc = rd::add(&acc, &get(*i)?);
+            }
+            acc
+        }
+        EOp::Msm(is, ks) | EOp::MultiscalarMul(is, ks) => {
+            let bases: Vec<Pt> = if is.is_empty() {
+                vec![rd::generator().clone()]
+            } else {
+                is.iter().map(|i| get(*i)).collect::<Option<Vec<_>>>()?
+            };
+            let mut acc = rd::identity();
+            for (n, b) in bases.iter().enumerate() {
+                let k = ks.get(n).map(|h| scalar(h)).unwrap_or_else(|| BigUint::from(3u32));
+                acc = rd::add(&acc, &rd::scalar_mul(&k, b));
+            }
+            acc
+        }
+        EOp::AddOtherRep(i) | EOp::AddDecoded(i) => {
+            let p = get(*i)?;
+            rd::add(&p, &p)
+        }
+        EOp::OperatorForm(k, i, j, h) => {
+            let (x, y) = (get(*i)?, get(*j)?);
+            let f = scalar(h);
+            match k % 24 {
+                0 | 1 | 2 | 3 | 4 | 5 | 6 | 7 | 17 | 18 => rd::add(&x, &y),
+                8 | 9 | 10 | 19 | 20 | 21 => rd::add(&x, &rd::neg(&y)),
+                11 | 12 | 13 | 14 | 15 | 23 => rd::scalar_mul(&f, &x),
+                16 => rd::add(&rd::add(&x, &y), &x),
+                22 => rd::add(&x, &y),
+                _ => return None,
+            }
+        }
+        _ => return None,
+    })
 }
 
 fn build(op: &EOp, pool: &[PoolEntry]) -> Built {
@@ -412,6 +494,14 @@ fn build(op: &EOp, pool: &[PoolEntry]) -> Built {
             Built {
                 same_as: src_index(*i),
                 ..plain(a.into_group())
+            }
+        }
+        EOp::SumOfAffine(is, by_ref) => {
+            let v: Vec<AffinePoint> = gets(is).iter().map(|e| (*e).into()).collect();
+            if *by_ref {
+                plain(v.iter().sum::<Element>())
+            } else {
+                plain(v.into_iter().sum::<Element>())
             }
         }
         EOp::GadgetValue(h, input) => {
@@ -740,6 +830,38 @@ fn build_pool(ctx: &mut Ctx, run: &IoRun) -> Vec<PoolEntry> {
                     continue;
                 }
                 let tag = check_valid(ctx, name, &b.e, &b.a, pop.full_check);
+                if let Some(t) = &tag {
+                    if rd::valid_representative_cheap(t).is_ok() {
+                        if let Some(want) = model_of(&pop.op, &pool) {
+                            ctx.out.steps += 1;
+                            if rd::equal(t, &want) {
+                                ctx.probe("operation_arrived_at_the_element_it_denotes");
+                            } else {
+                                // Arithmetic correctness is what C04 (operator forms) and C05 (scalar
+                                // multiplication) state; neither is claimed by this engine (pure functions), so
+                                // this is recorded as an other-property diagnostic and never decides a claimed
+                                // check. C03 itself only speaks about how the element arrived at is encoded.
+                                let prop = match &pop.op {
+                                    EOp::MulU64(..) | EOp::MulFr(..) | EOp::NegOfMul(..) | EOp::MulOfNeg(..) | EOp::MulBigint(..)
+                                    | EOp::AffineMulBigint(..) | EOp::AffineMulFr(..) | EOp::Msm(..) | EOp::MultiscalarMul(..) => "C05",
+                                    EOp::OperatorForm(k, ..) if matches!(k % 24, 11 | 12 | 13 | 14 | 15 | 23) => "C05",
+                                    _ => "C04",
+                                };
+                                ctx.viol(
+                                    prop,
+                                    "element_value",
+                                    format!("op={}", name),
+                                    format!(
+                                        "{} arrived at {} but denotes {} (reference group law)",
+                                        name,
+                                        bridge::pt_hex(t),
+                                        bridge::pt_hex(&want)
+                                    ),
+                                );
+                            }
+                        }
+                    }
+                }
                 // a conversion between representations (affine <-> projective, batch normalisation) must not
                 // change which element is represented, or the two forms would encode differently
                 if let (Some(j), Some(t)) = (b.same_as, &tag) {
@@ -1957,6 +2079,62 @@ fn echo_received(ctx: &mut Ctx) {
     }
 }
 
+thread_local! {
+    /// affine points this run's receiver obtained from streams
+    static RECEIVED_AFFINE: std::cell::RefCell<Vec<AffinePoint>> = std::cell::RefCell::new(Vec::new());
+}
+
+/// A receiver that updates what it received in place (+=, -=, *=) and sends it on: the bytes must be the
+/// specification's encoding of the updated element, whatever the received value remembers about its origin.
+fn echo_updated_affine(ctx: &mut Ctx) {
+    let pts: Vec<AffinePoint> = RECEIVED_AFFINE.with(|r| std::mem::take(&mut *r.borrow_mut()));
+    let g = rd::generator().clone();
+    for (n, a) in pts.iter().rev().take(9).enumerate() {
+        let pt = bridge::affine_to_pt(a);
+        if rd::valid_representative_cheap(&pt).is_err() {
+            continue;
+        }
+        let (want_pt, form) = match n % 3 {
+            0 => (rd::add(&pt, &g), "+="),
+            1 => (rd::add(&pt, &rd::neg(&g)), "-="),
+            _ => (rd::scalar_mul(&BigUint::from(3u32), &pt), "*="),
+        };
+        let want = match rd::encode(&want_pt) {
+            Some(w) => w,
+            None => continue,
+        };
+        let a2 = *a;
+        ctx.out.steps += 1;
+        let got = catch_unwind(AssertUnwindSafe(move || {
+            let mut x = a2;
+            let ga = <AffinePoint as AffineRepr>::generator();
+            match n % 3 {
+                0 => x += ga,
+                1 => x -= ga,
+                _ => x *= Fr::from(3u64),
+            }
+            let mut w = Vec::new();
+            x.serialize_compressed(&mut w).map(|_| w)
+        }));
+        match got {
+            Ok(Ok(w)) => {
+                if w != want.to_vec() {
+                    ctx.viol(
+                        "C03",
+                        "ser_bytes",
+                        format!("op=echo_updated shape=Affine form={} fault=false", form),
+                        format!("a received affine point updated in place with {} serialises to {} but the specification says {}", form, hex(&w), hex(&want)),
+                    );
+                } else {
+                    ctx.probe("received_affine_point_updated_in_place_and_forwarded");
+                }
+            }
+            Ok(Err(e)) => ctx.viol("C03", "ser_bytes", format!("op=echo_updated shape=Affine form={} fault=false", form), format!("serialisation failed: {:?}", e)),
+            Err(p) => ctx.viol("C03", "panic", "op=echo_updated".into(), panic_msg(p)),
+        }
+    }
+}
+
 fn elem_rval(e: &Element) -> RVal {
     RECEIVED_ELEMS.with(|r| {
         let mut v = r.borrow_mut();
@@ -1970,6 +2148,12 @@ fn elem_rval(e: &Element) -> RVal {
     }))
 }
 fn affine_rval(a: &AffinePoint) -> RVal {
+    RECEIVED_AFFINE.with(|r| {
+        let mut v = r.borrow_mut();
+        if v.len() < 64 {
+            v.push(*a);
+        }
+    });
     RVal::Pt(bridge::affine_to_pt(a))
 }
 
@@ -2900,8 +3084,10 @@ pub fn execute(run: &IoRun, logging: bool) -> Outcome {
     let mut segs = send_all(&mut ctx, run, &pool, &fpool);
     apply_channel(&mut ctx, run, &mut segs);
     RECEIVED_ELEMS.with(|r| r.borrow_mut().clear());
+    RECEIVED_AFFINE.with(|r| r.borrow_mut().clear());
     let received = receive_all(&mut ctx, run, &segs);
     echo_received(&mut ctx);
+    echo_updated_affine(&mut ctx);
     datagrams(&mut ctx, run);
     uncompressed(&mut ctx, run);
     history_checks(&mut ctx, &received);
